@@ -262,6 +262,15 @@ impl Host {
         self.iface.v.poll_at(inst(now), &self.sockets.v).map(|i| i.total_micros())
     }
 
+    /// a route of the interface expires at an instant in (a, b]
+    fn route_expires_within(&mut self, a: Micros, b: Micros) -> bool {
+        let mut hit = false;
+        self.iface.v.routes_mut().update(|v| {
+            hit = v.iter().any(|r| r.expires_at.map_or(false, |e| e.total_micros() > a && e.total_micros() <= b));
+        });
+        hit
+    }
+
     fn socket_summary(&self) -> String {
         use smoltcp::socket::Socket;
         let mut v = Vec::new();
@@ -301,7 +310,9 @@ impl Host {
                 let accepts = !self.dev.blocked && self.dev.tx_cap > 0;
                 let d2 = self.raw_poll_at(t);
                 let summary = self.socket_summary();
+                let route_expired = self.route_expires_within(last, t);
                 let p = self.probe.as_mut().unwrap();
+                p.route_expired_in_between = route_expired;
                 p.judge_s(medium, "extra", t, &out.tx, &summary);
                 // the remembered deadline stays the one the driver (or the last regular poll) saw
                 // if the early poll was silent; a poll that did transmit starts a new interval
@@ -326,7 +337,9 @@ impl Host {
         let accepts = !self.dev.blocked && self.dev.tx_cap > 0;
         let d_after = self.raw_poll_at(now);
         let summary = self.socket_summary();
+        let route_expired = self.route_expires_within(last, now);
         let p = self.probe.as_mut().unwrap();
+        p.route_expired_in_between = route_expired;
         let dl = p.deadline;
         let early = judged_interval && out.rx_count == 0 && dl.map_or(true, |x| now < x);
         if early {
